@@ -157,7 +157,10 @@ def walkRedirect (c : TCase) (which : String) : RdSt :=
            let reqLine := asciiStr (ls.headD [])
            let wantLine := s.curMethod ++ " " ++ uriPathQuery s.curUri ++ " HTTP/1.1"
            if reqLine != wantLine then { s with fail := some s!"request line {reqLine}, expected {wantLine}" } else
-           let explicitHost := s.origHdrs.any (·.name == "host") || s.addedNames.contains "host"
+           -- the caller's own Host header: added on this flow, or set on the original request and still on the
+           -- host it was set for (D13: it does not travel to another host)
+           let explicitHost := (s.origHdrs.any (·.name == "host") && lowerStr (uriHost s.origUri) == lowerStr (uriHost s.curUri)) ||
+                               s.addedNames.contains "host"
            let hostLine := (ls.drop 1).find? (fun l => lineName l == "host")
            (match hostLine with
             | some hl =>
